@@ -124,8 +124,7 @@ Proof.
     { unfold eid. rewrite app_nth2 by lia. rewrite Nat.sub_diag. reflexivity. }
     constructor; cbn.
     + split; [|split].
-      * apply NoDup_app; [exact ND|repeat constructor; cbn; tauto|].
-        intros x Hx [Hx2|[]]. subst. tauto.
+      * apply NoDup_snoc; auto.
       * constructor; auto.
       * intros i p. split.
         -- intros [H|H].
@@ -138,4 +137,67 @@ Proof.
     + intros p Hp. unfold entry_at; cbn. apply in_app_or in Hp. destruct Hp as [Hp|[Hp|[]]].
       * rewrite app_nth1 by auto. specialize (LAST p Hp). unfold entry_at in LAST. lia.
       * subst p. rewrite app_nth2, Nat.sub_diag by auto. cbn. lia.
+Qed.
+
+(* ---------- remove with re-check (local.go:215-240) ---------- *)
+
+Lemma remove_loop_spec : forall nw ents ex l m l' m',
+  idx_ok ents l m -> remove_loop nw ents ex l m = (l', m') ->
+  idx_ok ents l' m' /\ (forall p, In p l' -> In p l) /\
+  (forall p, In p l -> ~ In p l' -> (e_exp (nth p ents dummy_entry) <= nw)%N).
+Proof.
+  intros nw ents ex. induction ex as [|i rest IH]; intros l m l' m' OK H; cbn in H.
+  - inversion H; subst. split; [exact OK|]. split; [auto|]. intros p Hp Hn. tauto.
+  - destruct (Nat.leb (length l) i) eqn:Eb; [eapply IH; eauto|].
+    apply Nat.leb_gt in Eb.
+    destruct (N.ltb nw (e_exp (nth (nth i l 0) ents dummy_entry))) eqn:Et; [eapply IH; eauto|].
+    apply N.ltb_ge in Et.
+    set (p0 := nth i l 0) in *.
+    assert (Hp0 : In p0 l) by (apply nth_In; exact Eb).
+    pose proof OK as (ND & NK & HM).
+    destruct (swap_remove_spec i l Eb ND) as [ND1 HL1]. fold p0 in HL1.
+    assert (OK1 : idx_ok ents (swap_remove i l) (adel (p_id (e_peer (nth p0 ents dummy_entry))) m)).
+    { split; [exact ND1|]. split; [apply adel_keys_nodup; exact NK|].
+      intros j q. rewrite in_adel, HM, HL1. fold (eid ents p0). split.
+      - intros [[H1 H2] H3]. split; [|exact H2]. split; [exact H1|]. intros ->. congruence.
+      - intros [[H1 H2] H3]. split; [auto|]. intros E. apply H2.
+        eapply idx_ids_inj; eauto. congruence. }
+    destruct (IH _ _ _ _ OK1 H) as (OK' & SUB & EXP).
+    split; [exact OK'|]. split.
+    + intros p Hp. apply SUB in Hp. apply HL1 in Hp. tauto.
+    + intros p Hp Hn. destruct (Nat.eq_dec p p0) as [->|Hne]; [exact Et|].
+      apply EXP; auto. apply HL1. auto.
+Qed.
+
+Lemma remove_fields : forall nw G ex,
+  let G' := remove_expired nw G ex in
+  g_hash G' = g_hash G /\ g_deleted G' = g_deleted G /\ g_deadlog G' = g_deadlog G /\
+  g_last G' = g_last G /\ g_ents G' = g_ents G.
+Proof.
+  intros. subst G'. unfold remove_expired.
+  destruct (remove_loop nw (g_ents G) (rev ex) (g_list G) (g_map G)); cbn; auto.
+Qed.
+
+Lemma remove_char : forall nw G ex, gwf G ->
+  let G' := remove_expired nw G ex in
+  gwf G' /\ (forall p, In p (g_list G') -> In p (g_list G)) /\
+  (forall p, entry_at G' p = entry_at G p) /\
+  (forall p, In p (g_list G) -> ~ In p (g_list G') -> (e_exp (entry_at G p) <= nw)%N).
+Proof.
+  intros nw G ex WF G'. subst G'. destruct WF as [IDX PTR LAST]. unfold remove_expired.
+  destruct (remove_loop nw (g_ents G) (rev ex) (g_list G) (g_map G)) as [l' m'] eqn:E.
+  destruct (remove_loop_spec _ _ _ _ _ _ _ IDX E) as (OK' & SUB & EXP).
+  split; [|split; [exact SUB|split; [reflexivity|exact EXP]]].
+  constructor; cbn; auto.
+  intros p Hp. apply SUB in Hp. apply LAST in Hp. exact Hp.
+Qed.
+
+(* a scan marks exactly the positions whose entry is past its expiry (local.go:202-206);
+   only needed to show that the recorded positions are harmless whatever they are *)
+Lemma scan_from_bound : forall nw ents l i x, In x (scan_from nw ents l i) -> i <= x < i + length l.
+Proof.
+  intros nw ents l. induction l as [|p t IH]; intros i x H; cbn in *; [tauto|].
+  destruct (N.ltb (e_exp (nth p ents dummy_entry)) nw).
+  - destruct H as [H|H]; [lia|]. apply IH in H. lia.
+  - apply IH in H. lia.
 Qed.
